@@ -10,7 +10,7 @@ import (
 
 type vfGen struct {
 	n    int
-	mode int    // 0: symbolic real, 1: symbolic IEEE double (all bit patterns), 2: small concrete ints, 3: number with a symbolic %g spelling
+	mode int    // 0: symbolic real, 1: symbolic IEEE double (all bit patterns), 2: small concrete ints, 3: number with a symbolic %g spelling, 4: small concrete fractions
 	pfx  string // name prefix
 	tok  int    // mode 3: length of the spelling
 }
@@ -25,6 +25,9 @@ func (g *vfGen) f() float64 {
 		return float64((g.n*7)%11) - 3
 	case 3:
 		return vfWktNum(name, g.tok)
+	case 4:
+		// small concrete values with a fractional part (for rounding)
+		return float64((g.n*7)%11) - 3 + 0.0123456789*float64(g.n)
 	}
 	return vfReal(name)
 }
@@ -34,7 +37,7 @@ func (g *vfGen) pt() ORBQPoint { return ORBQPoint{g.f(), g.f()} }
 // a well-formed (non-empty) bound: Min <= Max on both axes
 func (g *vfGen) bound() ORBQBound {
 	b := ORBQBound{Min: g.pt(), Max: g.pt()}
-	if g.mode != 2 {
+	if g.mode != 2 && g.mode != 4 {
 		vfAssume(vfAnd(b.Min[0] <= b.Max[0], b.Min[1] <= b.Max[1]))
 	} else {
 		b.Max[0], b.Max[1] = b.Min[0]+2, b.Min[1]+3
